@@ -179,6 +179,27 @@ Theorem C11_align_spec : forall c ind last v,
 Proof. exact align_spec. Qed.
 Print Assumptions C11_align_spec.
 
+(* where the content ends up: the fragments of a line (text runs, atomic boxes) follow each
+   other in order, without overlap, from the start of the content (start edge +
+   text-indent + alignment offset) to that start plus the advance of the trimmed line; for
+   text-align: end and for justified lines that advance ends exactly at the end edge *)
+Theorem C11_place_spec : forall (c : cfg) (first last : bool) (l : list item),
+  wf l -> (0 <= em c)%Z ->
+  let ind := if first then indent c else 0%Z in
+  let v := trim_line l in
+  let p := align_params c ind last v in
+  let start := (x0 c + zq ind + fst p)%Q in
+  chain start (start + advance (em c) (snd p) v)%Q (place c first last l) /\
+  ((ind + sumw v < avail c)%Z ->
+   (al c = AEnd \/ (al c = AJustify /\ last = false /\ pcoll c = true /\ (0 < nspaces (em c) v)%Z)) ->
+   (start + advance (em c) (snd p) v == x0 c + zq (avail c))%Q).
+Proof.
+  intros c first last l Hwf Hem.
+  exact (conj (place_chain c first last l Hwf Hem)
+              (place_end_edge c (if first then indent c else 0%Z) last (trim_line l))).
+Qed.
+Print Assumptions C11_place_spec.
+
 (* "text-indent shifts the first line only" *)
 Theorem C11_indent_first_only : forall c i y ls,
   stack (set_indent c i) false y ls = stack c false y ls.
